@@ -14,6 +14,16 @@ pub fn run(sc: &Value) -> Value {
         std::fs::write(&full, &bytes).unwrap();
         contents.push((p.clone(), bytes));
     }
+    // symbolic links (target text as given: absolute targets are made absolute under the temporary root)
+    if let Some(links) = sc["links"].as_object() {
+        for (p, t) in links {
+            let full = root.join(p);
+            std::fs::create_dir_all(full.parent().unwrap()).unwrap();
+            let t = t.as_str().unwrap();
+            let target = if let Some(rest) = t.strip_prefix("@ROOT/") { root.join(rest).to_str().unwrap().to_string() } else { t.to_string() };
+            std::os::unix::fs::symlink(&target, &full).unwrap();
+        }
+    }
     let old = std::env::current_dir().ok();
     std::env::set_current_dir(&root).unwrap();
     let strs = |v: &Value| -> Vec<String> { v.as_array().unwrap().iter().map(|x| x.as_str().unwrap().to_string()).collect() };
@@ -42,7 +52,8 @@ pub fn run(sc: &Value) -> Value {
                     digests_ok = digests_ok && found;
                 }
             }
-            json!({"outcome": format!("keys:{}", keys.join(",")), "digests_ok": digests_ok})
+            let digests: serde_json::Map<String, Value> = v.as_object().unwrap().iter().map(|(k, d)| (k.clone(), d.get("sha256").cloned().unwrap_or(Value::Null))).collect();
+            json!({"outcome": format!("keys:{}", keys.join(",")), "digests_ok": digests_ok, "sha256": digests})
         }
     };
     let _ = std::fs::remove_dir_all(&root);
